@@ -5,6 +5,7 @@ EXTENDS Integers, Sequences
 \* ------------------------------------------------- unit tags and file names
 \* factors are mantissa * 10^exponent, as <<mantissa, exponent>> (TLC integers are 32 bit)
 \* file pressure unit -> Pa
+\* (the five tags of the first round of the check; the full table of declared units is below)
 PressureFactor(u) == CASE u = "Pa" -> <<1, 0>> [] u = "bar" -> <<1, 5>> [] u = "atm" -> <<101325, 0>>
                        [] u = "mbar" -> <<1, 2>> [] u = "kPa" -> <<1, 3>>
 \* stored cross-section -> cm^2 (what xsecGrid holds): pickle/HDF5 store cm^2, Exo-Transmit m^2
@@ -13,6 +14,44 @@ XsecFactor(fmt) == IF fmt = "exotransmit" THEN <<1, 4>> ELSE <<1, 0>>
 CiaFactor(fmt) == IF fmt = "hitran" THEN <<1, 0 - 10>> ELSE <<1, 0>>
 \* Exo-Transmit spectral axis: wavelength in metres; wavenumber (cm^-1) = 10^-2 / wavelength
 ExoWavenumberNumerator == <<1, 0 - 2>>
+
+\* ------------------------------------------------- declared pressure units (HDF5 cross-sections and HDF5 k-tables)
+\* A container that declares its pressure unit may use any SI prefix on any base unit.  The unit table is a
+\* constant map: base unit -> exact rational factor to Pa, <<num, den, exp10>> = num/den * 10^exp10, and
+\* prefix -> power of ten.  (The conventional mmHg, 133.322387415 Pa, does not fit 32-bit integers and is left out.)
+BaseUnits == {"Pa", "N/m2", "bar", "atm", "Torr", "torr", "Ba", "barye", "dyn/cm2"}
+BaseFactor == [b \in BaseUnits |->
+                 CASE b \in {"Pa", "N/m2"} -> <<1, 1, 0>>
+                   [] b = "bar" -> <<1, 1, 5>>
+                   [] b = "atm" -> <<101325, 1, 0>>
+                   [] b \in {"Torr", "torr"} -> <<20265, 152, 0>>            \* 101325/760
+                   [] b \in {"Ba", "barye", "dyn/cm2"} -> <<1, 1, 0 - 1>>]
+Prefixes == {"", "da", "h", "k", "M", "G", "T", "P", "d", "c", "m", "u", "n", "p"}
+PrefixExp == [p \in Prefixes |->
+                CASE p = "" -> 0 [] p = "da" -> 1 [] p = "h" -> 2 [] p = "k" -> 3 [] p = "M" -> 6 [] p = "G" -> 9
+                  [] p = "T" -> 12 [] p = "P" -> 15 [] p = "d" -> 0 - 1 [] p = "c" -> 0 - 2 [] p = "m" -> 0 - 3
+                  [] p = "u" -> 0 - 6 [] p = "n" -> 0 - 9 [] p = "p" -> 0 - 12]
+UnitName(p, b) == p \o b
+UnitFactor(p, b) == <<BaseFactor[b][1], BaseFactor[b][2], BaseFactor[b][3] + PrefixExp[p]>>
+\* canonical form of num/den * 10^exp10: gcd(num, den) = 1, den coprime to 10, num not a multiple of 10
+RECURSIVE UGcd(_, _)
+UGcd(x, y) == IF y = 0 THEN x ELSE UGcd(y, x % y)
+RECURSIVE TriCanon(_)
+TriCanon(a) == LET n == a[1]  d == a[2]  e == a[3]  g == UGcd(n, d) IN
+    IF g > 1 THEN TriCanon(<<n \div g, d \div g, e>>)
+    ELSE IF (n % 10) = 0 THEN TriCanon(<<n \div 10, d, e + 1>>)
+    ELSE IF (d % 2) = 0 THEN TriCanon(<<n * 5, d \div 2, e - 1>>)
+    ELSE IF (d % 5) = 0 THEN TriCanon(<<n * 2, d \div 5, e - 1>>)
+    ELSE a
+TriMul(a, b) == LET x == TriCanon(a)  y == TriCanon(b)
+                    \* cross-reduce before multiplying (32-bit integers)
+                    g1 == UGcd(x[1], y[2])  g2 == UGcd(y[1], x[2])
+                IN  TriCanon(<<(x[1] \div g1) * (y[1] \div g2), (x[2] \div g2) * (y[2] \div g1), x[3] + y[3]>>)
+TriInv(a) == <<a[2], a[1], 0 - a[3]>>
+TriEq(a, b) == TriCanon(a) = TriCanon(b)
+\* value * factor and value / factor for a value <<mantissa, exp10>> (positive)
+ToSI(v, f) == TriMul(<<v[1], 1, v[2]>>, f)
+ToFile(v, f) == TriMul(<<v[1], 1, v[2]>>, TriInv(f))
 
 \* a name is a sequence of records [c |-> class, s |-> character]; class in {"U","l","d","x"}
 \* re.findall('([A-Z][a-z]?)([0-9]*)', name) joined: an upper-case letter, at most one lower-case letter,
